@@ -280,8 +280,9 @@ pub fn gen_c14(out: &mut Out, rng: &mut Rng, thorough: bool) {
             }
             ("tcp", 0) => {
                 let mut f = spec::mbap(rng.u16(), rng.u8(), &[0x11]);
-                f[2] = rng.u8();
-                f[3] = rng.u8() | 1;
+                let pid = rng.nonzero_be16();
+                f[2] = pid[0];
+                f[3] = pid[1];
                 f
             }
             ("tcp", 1) => {
